@@ -68,6 +68,7 @@ type Verifier struct {
 	globIDs      map[string]int
 	safety       bool
 	factSeen     map[string]bool
+	setTheory    bool // the function under verification speaks about string sets (visitedset / strset / domof)
 	ftCache      map[string]*Contract
 	inlineDepth  int
 	wantTags     map[string]bool
